@@ -10,6 +10,7 @@ import Proofs.Structure
 import Proofs.RangeOps
 import Proofs.Fitter
 import Proofs.FitterText
+import Proofs.Structure2
 namespace PM
 
 /-! ### close_fragment only adds fillers -/
@@ -549,5 +550,131 @@ theorem Widened.inside_isolating (S : Schema) {doc : Node} {f t : Nat} {rf rt : 
         exact absurd this (by simp)
     have nf := Rf.nestW k d (by omega) hdf
     omega
+
+/-! ### insert_point moves over structure only -/
+
+theorem insertLoopStart_tight (S : Schema) {doc : Node} {pos : Nat} {r : RPos} (R : Resolved doc pos r)
+    (ty : TypeId) : ∀ (n p : Nat), n ≤ r.depth → pos = r.start n + (r.depth - n) →
+    insertLoopStart S r ty n = some (some (some p)) →
+    ∃ d, 1 ≤ d ∧ d ≤ r.depth ∧ pos = r.start d + (r.depth - d) ∧ p = r.start d - 1
+  | 0, p, _, _, h => by simp [insertLoopStart] at h
+  | d + 1, p, hn, ht, h => by
+    unfold insertLoopStart at h
+    simp only at h
+    split at h
+    · simp at h
+    · split at h
+      · simp at h
+      · rename_i p' hp'
+        simp only [Option.some.injEq] at h
+        subst h
+        rw [R.before_eq (d + 1) (by omega) hn] at hp'
+        simp only [Option.some.injEq] at hp'
+        exact ⟨d + 1, by omega, hn, ht, hp'.symm⟩
+    · split at h
+      · simp at h
+      · rename_i hidx
+        have E := R.entry d (by omega)
+        have hs := Resolved.start_succ r d
+        have h0 : r.index d = 0 := by omega
+        have hp : (r.entry d).pos = r.start d := by
+          have := E.pos_eq
+          simp only [RPos.index] at h0
+          rw [h0] at this
+          simpa [fsize] using this
+        exact insertLoopStart_tight S R ty d p (by omega) (by omega) h
+
+theorem insertLoopEnd_tight (S : Schema) {doc : Node} {pos : Nat} {r : RPos} (R : Resolved doc pos r)
+    (ty : TypeId) : ∀ (n p : Nat), n ≤ r.depth → r.end_ n = pos + (r.depth - n) →
+    insertLoopEnd S r ty n = some (some (some p)) →
+    ∃ d, 1 ≤ d ∧ d ≤ r.depth ∧ r.end_ d = pos + (r.depth - d) ∧ p = r.end_ d + 1
+  | 0, p, _, _, h => by simp [insertLoopEnd] at h
+  | d + 1, p, hn, ht, h => by
+    unfold insertLoopEnd at h
+    simp only at h
+    split at h
+    · simp at h
+    · split at h
+      · simp at h
+      · rename_i p' hp'
+        simp only [Option.some.injEq] at h
+        subst h
+        rw [R.after_eq (d + 1) (by omega) hn] at hp'
+        simp only [Option.some.injEq] at hp'
+        exact ⟨d + 1, by omega, hn, ht, hp'.symm⟩
+    · split at h
+      · simp at h
+      · rename_i hidx
+        have E := R.entry d (by omega)
+        obtain ⟨hc, hsz⟩ := R.chain d (by omega)
+        have hs := Resolved.start_succ r d
+        have hia : r.indexAfter d = r.index d + 1 := by
+          simp [RPos.indexAfter, show d ≠ r.depth by omega]
+        have hlt : r.index d < (r.node d).kids.length := by
+          rcases Nat.lt_or_ge (r.index d) (r.node d).kids.length with c | c
+          · exact c
+          · rw [List.getElem?_eq_none c] at hc; simp at hc
+        have htk : (r.node d).kids.take (r.index d + 1) = (r.node d).kids :=
+          List.take_of_length_le (by omega)
+        have hsum := fsize_take_succ _ _ _ hc
+        rw [htk] at hsum
+        have hp := E.pos_eq
+        simp only [RPos.index, RPos.node] at hsum hp hsz
+        have he1 : r.end_ d = r.start d + fsize (r.node d).kids := rfl
+        have he2 : r.end_ (d + 1) = r.start (d + 1) + fsize (r.node (d + 1)).kids := rfl
+        simp only [RPos.node] at he1 he2
+        exact insertLoopEnd_tight S R ty d p (by omega) (by omega) h
+
+/-- **`insert_point` moves the position over structure only**: its answer `p` is the position
+    itself, or lies in front of it with nothing but open tokens between them, or behind it with
+    nothing but close tokens between them -/
+theorem insertPoint_structural (S : Schema) (doc : Node) (pos : Nat) (ty : TypeId) (p : Nat)
+    (h : insertPoint S doc pos ty = some (some p)) :
+    (p ≤ pos ∧ ∀ i, p ≤ i → i < pos → ∃ t a m, (ftoks doc.kids)[i]? = some (Tok.op t a m)) ∨
+    (pos ≤ p ∧ p ≤ fsize doc.kids ∧ ∀ i, pos ≤ i → i < p → (ftoks doc.kids)[i]? = some Tok.cl) := by
+  unfold insertPoint at h
+  cases hr : doc.resolve pos with
+  | none => simp [hr] at h
+  | some r =>
+    simp only [hr] at h
+    have R := resolve_resolved hr
+    have pin := R.pos_in r.depth (Nat.le_refl _)
+    have hpe := R.pos_eq
+    unfold insertPointR at h
+    split at h
+    · simp at h
+    · simp only [Option.some.injEq] at h
+      rw [hpe] at h
+      subst h
+      exact .inl ⟨Nat.le_refl _, fun i h1 h2 => by omega⟩
+    · simp only at h
+      split at h
+      · simp at h
+      · rename_i res hfirst
+        simp only [Option.some.injEq] at h
+        subst h
+        split at hfirst
+        · rename_i hpo
+          simp only [RPos.parentOffset] at hpo
+          obtain ⟨d, h1, hd, htight, rfl⟩ := insertLoopStart_tight S R ty r.depth p (Nat.le_refl _)
+            (by omega) hfirst
+          exact .inl ⟨by omega, fun i hi1 hi2 => R.open_run_before hr d h1 hd htight i hi1 hi2⟩
+        · simp at hfirst
+      · split at h
+        · rename_i hpo
+          simp only [RPos.parentOffset] at hpo
+          split at h
+          · simp at h
+          · rename_i res hend
+            simp only [Option.some.injEq] at h
+            subst h
+            have he : r.end_ r.depth = r.start r.depth + fsize (r.node r.depth).kids := rfl
+            simp only [RPos.parent] at hpo
+            obtain ⟨d, h1, hd, htight, rfl⟩ := insertLoopEnd_tight S R ty r.depth p (Nat.le_refl _)
+              (by omega) hend
+            exact .inr ⟨by omega, (R.end_le_size d hd).2 h1,
+              fun i hi1 hi2 => R.close_run_after hr d h1 hd htight i hi1 hi2⟩
+          · simp at h
+        · simp at h
 
 end PM
